@@ -30,11 +30,20 @@ def run(ctx):
         e5.kernel_job(ctx, 'k_check_options.c', name='check_options', harness_bound=260, timeout=300),
         e5.kernel_job(ctx, 'k_check_options.c', name='check_options_w', defines=['VP_WITNESS'], harness_bound=260, timeout=300, expect='witness'),
     ]
+    # flexinit(): the option dispatch on a symbolic sequence of options
+    jobs += [
+        e5.kernel_job(ctx, 'k_flexinit.c', name='flexinit_k2', defines=['VP_K=2'], harness_bound=8, default_bound=4, timeout=400),
+        e5.kernel_job(ctx, 'k_flexinit.c', name='flexinit_k2_w', defines=['VP_K=2', 'VP_WITNESS'], harness_bound=8, default_bound=4, timeout=400, expect='witness'),
+        e5.kernel_job(ctx, 'k_flexinit.c', name='flexinit_C_k4', defines=['VP_K=4', 'VP_ONLY_C'], harness_bound=8, default_bound=6, timeout=400),
+    ]
+    if not quick:
+        jobs.append(e5.kernel_job(ctx, 'k_flexinit.c', name='flexinit_k3', defines=['VP_K=3'], harness_bound=8, default_bound=5, timeout=1800, mem_mb=16000))
     ctx.run_cbmc(jobs)
-    ctx.functions.add('check_options')
+    ctx.functions.update(['check_options', 'flexinit', 'sf_init', 'sf_set_case_ins', 'set_up_initial_allocations'])
     spelling_equivalence(ctx)
     name_level_effects(ctx)
     ctx.assume('check_options(): every boolean of the option record, the character-set size and the interactive trit are solver variables; stubs: flexerror/lerr end the path, freopen returns an arbitrary result')
+    ctx.assume('flexinit(): scanopt() replaced by a stub handing out K solver-chosen option codes (K=2 all options, K=4 for the -C family; -C arguments are solver-chosen strings of <= 2 characters); --help/--version/-D excluded; allocate_array/buf_*/set_input_file stubbed')
     ctx.assume('cbmc 6.11 + MiniSat sound; --unwinding-assertions on every query')
     ctx.out_of_bound.append('options whose effect is on reports/files only (-b, -v, -p, -T, -S); C++-only options beyond generation; pairwise combinations beyond check_options()')
 
